@@ -524,6 +524,8 @@ def run_case(case, caching=True, evaluations=1, tree_out=None, ambient=None):
     (enable_caching if caching else disable_caching)()
     try:
         b = Built(case)
+        if case.get('share_terms'):
+            b.share_terms = {}           # structurally equal attribute / index / call terms are ONE expression object
         snapshot = [{k: (list(v) if isinstance(v, list) else v) for k, v in vars(o).items()} for o in b.objs]
         b.query()
         outs = []
